@@ -58,6 +58,13 @@ int disasm_65816(
   strcpy(instruction, table_65816[table_65816_opcodes[opcode].instr].name);
   op = table_65816_opcodes[opcode].op;
 
+  // The assembler takes an address below 0x10000 for the 16 bit form unless
+  // the mnemonic carries the .l modifier.
+  if (op == OP_ADDRESS24 || op == OP_INDEXED24_X)
+  {
+    strcat(instruction, ".l");
+  }
+
   if (bytes == 0)
   {
     bytes = op_bytes[op];
